@@ -9,4 +9,4 @@ Extraction "conc_model.ml"
   jdk_adder jdk_f64_adder ainit rc_adder rinit atomic_adder atomic_f64_adder mutex_adder xinit
   breaker binit winit of_bits
   pool pinit upd_choices norm_workers norm_limit
-  view jdk_kind mutexq_kind striped_kind rc_kind atomic_kind mutexadd_kind breaker_kind pool_kind striped_loc jdk_loc.
+  view jdk_kind mutexq_kind striped_kind rc_kind atomic_kind mutexadd_kind breaker_kind pool_kind striped_loc jdk_loc breaker_loc.
